@@ -9,6 +9,9 @@ set -u
 LANES=${1:-4}
 GLOB=${2:-*}
 cd /verif
+# the lanes run a snapshot of /verif taken now, so that /verif may be edited while they work
+SNAP=/tmp/sweep-verif
+rsync -a --delete --exclude target --exclude .git --exclude evidence --exclude replays /verif/ $SNAP/
 ids=$(ls -d seeded/$GLOB/ 2>/dev/null | xargs -n1 basename | sort)
 mkdir -p /tmp/sweep-results
 rm -f /tmp/sweep-results/*
@@ -22,7 +25,7 @@ lane() {
     (cd $COPY && git apply /verif/seeded/$id/patch.diff) || { echo "$id PATCH-FAILED" > /tmp/sweep-results/$id; continue; }
     res=""
     for c in $checks; do
-      out=$(unshare -m bash -c "mount --bind $COPY /repo && cd /verif && VERIF_OUT=$OUT ./check $c quick" 2>&1)
+      out=$(unshare -m bash -c "mount --bind $COPY /repo && cd $SNAP && VERIF_OUT=$OUT ./check $c quick" 2>&1)
       code=$?
       key=$(echo "$out" | grep -m1 "key:" | sed 's/^ *key: //')
       res="$res $c:exit$code:$key"
@@ -48,3 +51,4 @@ cat /tmp/sweep-results/* | sort > /tmp/sweep-summary.txt
 cat /tmp/sweep-summary.txt
 missed=$(grep -c "exit0" /tmp/sweep-summary.txt || true)
 echo "seeds=$(wc -l < /tmp/sweep-summary.txt) with-a-silent-check=$missed"
+rm -rf $SNAP
